@@ -63,6 +63,7 @@ func tryAcquireDirLock(dir, lockPath string, fs vfs.FS) (_ *DirLock, stale bool,
 	if !ok {
 		return nil, false, fmt.Errorf("dirlock: file %q does not expose descriptor", lockPath)
 	}
+	VerifYield("dirlock.before-flock")
 	if err := syscall.Flock(int(fd), syscall.LOCK_EX|syscall.LOCK_NB); err != nil {
 		if errors.Is(err, syscall.EWOULDBLOCK) {
 			return nil, false, fmt.Errorf("dirlock: directory %q already in use", dir)
@@ -108,6 +109,7 @@ func (l *DirLock) Release() error {
 		firstErr = err
 	}
 	if fd, ok := vfs.FileFD(l.file); ok {
+		VerifYield("dirlock.before-unlock")
 		if err := syscall.Flock(int(fd), syscall.LOCK_UN); err != nil && firstErr == nil {
 			firstErr = err
 		}
